@@ -14,8 +14,9 @@ CLAIMS = {
         text=("Machine-checked theorems over a line-by-line Gallina model of SeenSet/IndexedCache, for ALL key lists, value "
               "alphabets and histories (induction over the operation list): C20_check (coverage answers exactly 'some inserted "
               "binding is contained in the lookup'), C20_clear, C20_retrieve_sound (whatever retrieve returns is a stored, not overwritten entry compatible with the lookup: "
-              "retrieval never invents); retrieval COMPLETENESS is refuted in Coq by a witness (C20_retrieve_refuted) that replays on "
-              "the code = known finding C20-wildcard-preference: entries are lost, never invented. The model is tied to "
+              "retrieval never invents), C20_retrieve_complete_unmixed (on an index with no level holding both the wildcard and a concrete "
+              "key every compatible entry is returned); general COMPLETENESS is refuted in Coq by a witness (C20_retrieve_refuted) that "
+              "replays on the code = known finding C20-wildcard-preference: entries are lost, never invented, and only through a mixed level. The model is tied to "
               "cache_data.py by comparing the result of every operation of generated histories (exact sequences) on every run; "
               "the implementation is compared with the reference store as well, and a disagreement that is not exactly the "
               "listed finding is a violation."),
